@@ -86,7 +86,7 @@ def relevant_sig(pid, sig, fields=None):
     return sig if kind in allowed else None
 
 
-def stage_cases(rep, work, binpath, cases, name, spec="Trace_Load", shards=8, jvms=12, env=None, xmx="3g", per_case_timeout=60, fields=None):
+def stage_cases(rep, work, binpath, cases, name, spec="Trace_Load", shards=8, jvms=12, env=None, xmx="3g", per_case_timeout=300, fields=None):
     """cases.ndjson -> harness workers -> NDJSON traces -> TLC trace validation."""
     t0 = time.time()
     outs, n, crashes = run_workers(binpath, cases, work.path(name), shards=shards, extra_env=env, per_case_timeout=per_case_timeout)
@@ -163,7 +163,19 @@ def c01(rep, work, tier, seed):
         rep.sample(c)
     resc = corpus_stage(rep, work, b, tier)
     res["outcomes"][0] += resc["outcomes"][0]
-    rep.final = dict(rule="random/boundary well-formed sprite programs (G3 'struct') and the repository's real Aseprite files (independent decoder -> program; "
+    big = work.path("g3big.ndjson")
+    gen(b, big, "long", seed, 2 if tier == "quick" else 12)
+    wide = work.path("g3wide.ndjson")
+    gen(b, wide, "wide", seed, 3 if tier == "quick" else 20)
+    with open(big, "a") as f:
+        f.write(open(wide).read())
+    resb = stage_cases(rep, work, b, big, "g3-long-wide", shards=5, jvms=5)
+    need_ok(rep, resb, "g3-long-wide", 0.99)
+    res["outcomes"][0] += resb["outcomes"][0]
+    tot = mc_load_stage(rep, work, b, tier)
+    res["outcomes"][0] += tot[0]
+    rep.final = dict(rule="every chunk program up to length 3 (quick) / 4 (thorough) over MC_Load's alphabet enumerated by TLC and replayed; "
+                          "random/boundary well-formed sprite programs (G3 'struct') and the repository's real Aseprite files (independent decoder -> program; "
                           "the library loads the original bytes); a case is non-trivial when the specification "
                           "classifies it well-formed (outcome ok) and its full observation is compared field by field by TLC",
                      trusted=TRUSTED)
@@ -292,7 +304,7 @@ def ud_chunk(pos):
         return {"k": "ud", "text": [], "color": [[pos, 2, 3, 255]]}
     if m == 2:
         return {"k": "ud", "text": [[85, 48 + pos]], "color": [[pos, 5, 6, 7]]}
-    return {"k": "ud", "text": [[48 + pos]], "color": []}
+    return {"k": "ud", "text": [], "color": []}
 
 
 def expand_ud(syms, idx=0):
@@ -364,7 +376,11 @@ def c10(rep, work, tier, seed):
     rep.sample(first_cases(cases, 2000)[-1])
     res = batched_stage(rep, work, b, cases, "ud", batch=60000)
     need_ok(rep, res, "ud", 0.99)
-    # longer random sequences from the same spec (TLC -simulate), length <= 30
+    # random sprites with user data on layers, cels in all frames, slices, tags and the sprite (incl. empty records)
+    g3 = work.path("g3.ndjson")
+    gen(b, g3, "struct", seed + 21, 300 if tier == "quick" else 6000)
+    resg = stage_cases(rep, work, b, g3, "g3-struct")
+    need_ok(rep, resg, "g3-struct", 0.95)
     rep.cov["distinct_nontrivial"] = res["outcomes"][0]
     rep.final = dict(rule=f"every chunk sequence of length <= {maxlen} over layer/cel/slice/tags(1,2)/legacy palette/new palette/ignorable/user data "
                           "satisfying C10's side conditions (TLC BFS, exhaustive; invariants UDOwnerInv, NoStrayInv, IgnoredStutterInv), each replayed "
@@ -429,6 +445,42 @@ def corpus_stage(rep, work, b, tier):
     return res
 
 
+def mc_load_stage(rep, work, b, tier, depths=(32, 8)):
+    """Direction A for the loader as a whole: MC_Load enumerates every chunk program up to a length over a concrete alphabet
+    (all three outcome classes), each is replayed in the implementation and validated by Trace_Load."""
+    maxlen = 3 if tier == "quick" else 4
+    tot = [0, 0, 0, 0]
+    for depth in depths:
+        out, states = mc_run(rep, work, "MC_Load", {"MaxLen": maxlen, "Depth": depth}, ["FoldInv", "RenderDefinedInv", "CelOrderInv", "Export"],
+                             workers=10, name=f"MC_Load{depth}")
+        cases = work.path(f"mcload{depth}.ndjson")
+        n = write_cases(cases, ({"id": f"mcload{depth}-{i}", "mode": "full", "meta": {"gen": "g1", "model": "MC_Load", "spec_outcome": d["outcome"]}, "prog": d["prog"]}
+                                for i, d in enumerate(map(json.loads, extract_json_prints(out, "PROG")))))
+        os.remove(out)
+        if depth == depths[0]:
+            rep.sample(first_cases(cases, 900, 4000)[-1])
+        res = batched_stage(rep, work, b, cases, f"mc-load-{depth}", batch=40000)
+        for i in range(4):
+            tot[i] += res["outcomes"][i]
+        os.remove(cases)
+    rep.cov["mc_load_programs"] = dict(zip(["ok", "err", "either", "unstructured"], tot))
+    return tot
+
+
+def huge_stage(rep, work, b, tier, seed):
+    """Canvases up to 65535 x 65535 with tilesets of unusual tile sizes: nothing is rendered, but every dimension law, tile lookup
+    and accessor is exercised at the top of the 16-bit range."""
+    cases = work.path("g3huge.ndjson")
+    gen(b, cases, "huge", seed + 31, 120 if tier == "quick" else 3000)
+    res = stage_cases(rep, work, b, cases, "g3-huge")
+    need_ok(rep, res, "g3-huge", 0.95)
+    return res
+
+
+def huge_extra(rep, work, tier, seed, b):
+    huge_stage(rep, work, b, tier, seed)
+
+
 def g3_check(pid, profile, nq, nt, rule, extra=None):
     def f(rep, work, tier, seed):
         b = build("dev")
@@ -459,9 +511,10 @@ CHECKS.update({
     "C06": (g3_check("C06", "cel", 400, 8000,
                      "random/boundary sprites in the three pixel formats (sparse palettes, alpha < 255, all transparent-index positions, background "
                      "flag, raw/zlib/stored storage, links); every cel image and cel fact recomputed by TLC (AseRender.CelImage)"), "model_checking"),
-    "C08": (g3_check("C08", "tile", 400, 8000,
+    "C08": (g3_check("C08", "tile", 400, 8000, extra=huge_extra, rule=
                      "random sprites with tilesets (tile sizes 1..3, counts 1..4, three formats) and tilemap cels at tile-aligned offsets incl. "
-                     "off-canvas; tile lookups on a grid incl. far coordinates, tilemap image, tile/tileset images recomputed by TLC"), "model_checking"),
+                     "off-canvas; tile lookups on a grid incl. far coordinates, tilemap image, tile/tileset images recomputed by TLC; "
+                     "plus canvases and tile sizes up to the format maximum (dimension laws and lookups only)"), "model_checking"),
     "C19": (g3_check("C19", "default", 400, 8000,
                      "random sprites with non-square frame x layer counts; the three cel routes, single-visible-layer frames and tilemap images "
                      "compared by TLC"), "model_checking"),
@@ -531,7 +584,7 @@ def c03(rep, work, tier, seed):
                            "i.e. a second transcription of Aseprite's C++; the 14 integer modes, alpha, opacity and the wrapper are pure TLA+")
     rep.final = dict(rule="vectors (mode, backdrop, source, layer opacity, cel opacity) rendered through Frame::image and compared by TLC with AseBlend.Blend: "
                           "complete 2^16 channel tables of 14 modes at full alpha; boundary lattice; seeded random vectors over the full space; HSL tie cases; "
-                          "(thorough: 2^16 x 12x12 alpha grid, all 2^16 opacity pairs). non-trivial = both pixels visible and opacity product > 0",
+                          "(thorough: 2^16 x 6x6 alpha grid, all 2^16 opacity pairs). non-trivial = both pixels visible and opacity product > 0",
                      trusted=TRUSTED + ["AseFloat.java override for the five binary64 modes"],
                      explanation="exploration with the TLA+ blend algebra as the executable reference; not exhaustive over 19 x 2^80")
 
@@ -915,7 +968,7 @@ def c04(rep, work, tier, seed):
             batched_stage(rep, work, b, pairs, f"pairs-{prof}", batch=100000, env=env)
         st = work.path("stress.ndjson")
         write_cases(st, stress_cases(tier))
-        stage_cases(rep, work, b, st, f"stress-{prof}", env=env, per_case_timeout=120)
+        stage_cases(rep, work, b, st, f"stress-{prof}", env=env, per_case_timeout=900)
         tot += sum(r1["outcomes"]) + sum(r2["outcomes"])
         if prof == "dev":
             rep.sample(first_cases(ff, 3, 100000)[-1].get("meta"))
@@ -947,6 +1000,8 @@ def c05(rep, work, tier, seed):
                     m += 1
                     f.write(json.dumps({"id": f"{c['id']}|{name}", "mode": "full", "meta": {"gen": "g5-inconsistency", "class": name}, "prog": q}) + "\n")
     r0 = batched_stage(rep, work, b, inc, "inconsistencies", batch=30000, env=env)
+    tot = mc_load_stage(rep, work, b, tier, depths=(32, 16, 8))
+    huge_stage(rep, work, b, tier, seed)
     rep.sample(first_cases(inc, 4, 100000)[-1].get("meta"))
     # (b) the C04 campaign in observing mode: every mutant that still loads gets the complete accessor sweep
     seeds, ff, hv = fault_inputs(rep, work, b, tier, seed, "light", 8 if tier == "quick" else 40, 25000 if tier == "quick" else 600000)
@@ -954,7 +1009,7 @@ def c05(rep, work, tier, seed):
     r2 = batched_stage(rep, work, b, hv, "havoc-usable", batch=100000, env=env)
     st = work.path("stress.ndjson")
     write_cases(st, stress_cases(tier))
-    stage_cases(rep, work, b, st, "stress-usable", env=env, per_case_timeout=120)
+    stage_cases(rep, work, b, st, "stress-usable", env=env, per_case_timeout=900)
     rep.cov["distinct_nontrivial"] = r0["outcomes"][2] + r0["outcomes"][1]
     rep.cov["inconsistent_programs"] = m
     rep.final = dict(rule="(a) random sprites with ONE inconsistency each from 35 classes (declared sizes vs data, tile ids, tile sizes, link targets, layer indices, levels, "
@@ -1069,6 +1124,10 @@ def c16(rep, work, tier, seed):
     rel = build("release")
     cases2 = work.path("rel.ndjson")
     gen(b, cases2, "render", seed + 12, 200 if tier == "quick" else 5000)
+    hugec = work.path("relhuge.ndjson")
+    gen(b, hugec, "huge", seed + 14, 150 if tier == "quick" else 3000)
+    with open(cases2, "a") as f:
+        f.write(open(hugec).read())
     pair_trace = work.path("pairs.ndjson")
     npairs = 0
     with open(pair_trace, "w") as po:
